@@ -161,6 +161,9 @@ pub fn statement_corpus() -> Vec<&'static str> {
         "SELECT t . k , y FROM t INNER JOIN u :: 'other.log' ON t . k = u . k",
         "SELECT t . k , y FROM t OUTER JOIN u :: 'other.log' ON u . k = t . k WHERE y > 1 LIMIT 2",
         "SELECT t . k , COUNT ( * ) FROM t INNER JOIN u :: 'other.log' ON t . k = u . k GROUP BY t . k",
+        "SELECT k , STRING_AGG ( s , '; ' ) FROM t GROUP BY k",
+        "SELECT s FROM t WHERE s != 'a;b' AND s != '--' ;",
+        "SELECT t . v - u . y , u . y * t . v - 1 FROM t INNER JOIN u :: 'other.log' ON t . k = u . k WHERE t . v - u . y > 0",
         "CREATE TABLE t ( line = '([a-z]+) ([0-9]+)' , line [ 1 ] => k TEXT , line [ 2 ] => v INT ) ;",
         "CREATE TABLE t ( line = split ';' , line [ 1 ] => k TEXT NOT NULL , line [ 2 ] => v INT DEFAULT 7 , line [ 3 ] => s TEXT TRIM ) ;",
         "CREATE TABLE t ( 'id=([0-9]+)' => id INT , 'name=(\\\\w+)' => name TEXT DEFAULT 'x' ) ;",
